@@ -12,6 +12,7 @@ import (
 
 	"github.com/openconfig/goyang/pkg/yang"
 	"verif/mc/core"
+	"verif/mc/props/scalekit"
 	"verif/mc/dump"
 	"verif/mc/explore"
 	"verif/mc/gen/fam"
@@ -19,8 +20,11 @@ import (
 )
 
 type Input struct {
-	Augs []fam.AugSpec `json:"augments"`
+	Augs  []fam.AugSpec  `json:"augments"`
+	Scale *scalekit.Case `json:"scale,omitempty"`
 }
+
+func toEntry(m *yang.Module) *yang.Entry { return yang.ToEntry(m) }
 
 type fail struct{ fp, exp, obs string }
 
@@ -80,13 +84,17 @@ func shards(tier string) []string {
 	for i := 0; i < nShards; i++ {
 		out = append(out, fmt.Sprintf("aug/%d", i))
 	}
-	return out
+	return append(out, scalekit.ShardNames()...)
 }
 
 func run(c *core.Ctx) {
 	var shard int
+	if strings.HasPrefix(c.Shard, "scale/") {
+		scalekit.Run(c, c.Shard, scaleCases(c.Tier), checkScale, func(cs scalekit.Case) any { return Input{Scale: &cs} })
+		return
+	}
 	fmt.Sscanf(c.Shard, "aug/%d", &shard)
-	c.Res.Bound = fmt.Sprintf("augment = owner {a, submodule as, b, c} x %d targets (containers, list, choice, case, leaf, leaf-list, rpc input/output written and unwritten, notification, node from uses, node in a submodule, nodes created by other augments, missing) x %d bodies (leaf, container, colliding name, two leaves, uses, case, nested containers); all single augments, a seventh (thorough: half) of all ordered pairs, chains of three in 4 declaration orders x 64 owner assignments; every load order of the 2-4 files", len(fam.AugTargets), fam.AugBodies)
+	c.Res.Bound = fmt.Sprintf("augment = owner {a, submodule as, b, c} x %d targets (containers, list, choice, case, leaf, leaf-list, rpc input/output written and unwritten, notification, node from uses, node in a submodule, nodes created by other augments, missing) x %d bodies (leaf, container, colliding name, two leaves, uses, case, nested containers); all single augments, a seventh (thorough: half) of all ordered pairs, chains of three in 4 declaration orders x 64 owner assignments; every load order of the 2-4 files; scale: an augment and a chained one on a target 0..40 (70) containers deep and on a container with 1..40, 63..65, 127..129, 255..257 children, 2 load orders", len(fam.AugTargets), fam.AugBodies)
 	i := 0
 	fam.AUG(c.Tier, func(augs []fam.AugSpec) {
 		i++
@@ -126,6 +134,10 @@ func replay(tier string, raw json.RawMessage) (bool, string, string) {
 	var in Input
 	if err := json.Unmarshal(raw, &in); err != nil {
 		return false, "", err.Error()
+	}
+	if in.Scale != nil {
+		v := checkScale(*in.Scale)
+		return v.Fp != "", "scale:" + v.Fp, fmt.Sprintf("expected %s\nobserved %s", v.Exp, v.Obs)
 	}
 	f, _, _ := check(in.Augs)
 	if f == nil {
